@@ -140,3 +140,30 @@ impl Ops {
         self.inner.lock().unwrap().clone()
     }
 }
+
+/// Future wrapper that counts every poll as progress (so that quiescence detection sees harness tasks
+/// and dispatcher tasks working).
+pub struct Counted<F> {
+    fut: Pin<Box<F>>,
+}
+
+impl<F: Future> Future for Counted<F> {
+    type Output = F::Output;
+    fn poll(mut self: Pin<&mut Self>, cx: &mut Context<'_>) -> Poll<Self::Output> {
+        bump_progress();
+        self.fut.as_mut().poll(cx)
+    }
+}
+
+pub fn counted<F: Future>(fut: F) -> Counted<F> {
+    Counted { fut: Box::pin(fut) }
+}
+
+/// `tokio::spawn` of a poll-counted future.
+pub fn spawn<F>(fut: F) -> tokio::task::JoinHandle<F::Output>
+where
+    F: Future + Send + 'static,
+    F::Output: Send + 'static,
+{
+    tokio::spawn(counted(fut))
+}
